@@ -494,10 +494,11 @@ def rules(repo, tier):
     from ..optional import rule_optional
     from ..mode import mode_rules
     from ..callsig import rule_callsig
+    from ..docsig import rule_docsig
     from ..axisdefault import rule_axisdefault
     return list(_rules_core(repo, tier)) + [rule_memo(repo, 'C11.MEMO', 'history independence: nothing computed from the contents of a tensor argument is kept '
                                                       'under the identity, address or version of that tensor, in module-level storage, or published from a generator '
                                                       'before it is complete - a later call with the same object and other contents must not be answered from it',
                                                       ['pypose.lietensor.convert'], floor=3),
-            rule_optional(repo, 'C11.OPT', ['pypose.lietensor.convert'])] + mode_rules(repo, 'C11', ['pypose.lietensor.convert']) + [rule_callsig(repo, 'C11.SIG', ['pypose.lietensor.convert'])] + [
+            rule_optional(repo, 'C11.OPT', ['pypose.lietensor.convert'])] + mode_rules(repo, 'C11', ['pypose.lietensor.convert']) + [rule_callsig(repo, 'C11.SIG', ['pypose.lietensor.convert']), rule_docsig(repo, 'C11.DOC', ['pypose.lietensor.convert'])] + [
             rule_axisdefault(repo, 'C11.AXDEF', ['pypose.lietensor.convert'])]
